@@ -42,7 +42,8 @@ impl Violation {
         self
     }
     pub fn key(&self) -> String {
-        let s: Vec<String> = self.site.iter().map(|(k, v)| format!("{}={}", k, v)).collect();
+        // `inject` (the exact injection of a fault-enumeration run) is carried for the minimiser, not part of the key
+        let s: Vec<String> = self.site.iter().filter(|(k, _)| k.as_str() != "inject").map(|(k, v)| format!("{}={}", k, v)).collect();
         format!("{} [{}]", self.class, s.join(" "))
     }
 }
@@ -305,10 +306,14 @@ pub fn run_batch(p: &dyn Property, cfg: &BatchCfg) -> i32 {
     if let Some(h) = extra_harness {
         harness_msgs.push(h);
     }
+    let mut reported_min_keys = BTreeSet::new();
     for (i, v) in &to_report {
         let rs = derive(cfg.seed, p.id(), *i);
         let case = p.gen(rs, cfg.tier);
         let (min_case, min_v, steps) = minimise(p, &case, v);
+        if !reported_min_keys.insert(min_v.key()) {
+            continue;
+        }
         let r2 = p.exec(&min_case);
         let reproduced = r2.violations.iter().any(|x| x.class == min_v.class);
         if !reproduced {
